@@ -196,5 +196,13 @@ def transform (o : TransformOpts) (rm : RM) (info : Json) (pub unpub : List OpRe
       some (.obj [("@context", .str resolutionContext), ("didDocument", .obj document), ("didDocumentMetadata", md)])
   | _, _, _ => none
 
+/-- the generic document transformer (`doctransformer/doctransformer/transformer.go`): the
+    internal document with the id added, plus the metadata. `none` = error. -/
+def genericTransform (o : TransformOpts) (rm : RM) (info : Json) (pub unpub : List OpRef) : Option Json :=
+  match metadata o rm info pub unpub, info.get? "id", rm.doc with
+  | some md, some id, some doc =>
+    some (.obj [("@context", .null), ("didDocument", .obj (Json.setMember "id" id (Composer.members doc))), ("didDocumentMetadata", md)])
+  | _, _, _ => none
+
 end Transformer
 end Sidetree
